@@ -31,6 +31,10 @@ _KEEP = re.compile(r'^-(D|U|I|std=|isystem|include)')
 def _fallback_flags():
     """No usable build dir: synthesise ufw/toolchain.h (all features on) and
     use the flags the pinned build uses (recorded in DESIGN.md section 2)."""
+    if _gen_inc:
+        return ['-DSYSTEM_ENDIANNESS_LITTLE', '-DUFW_USE_BUILTIN_SWAP',
+                '-D_DEFAULT_SOURCE', '-I' + os.path.join(REPO, 'include'),
+                '-I' + _gen_inc, '-DNDEBUG', '-std=gnu99']
     inc = os.path.join(scratch(), 'geninc')
     os.makedirs(os.path.join(inc, 'ufw'), exist_ok=True)
     src = os.path.join(REPO, 'include/ufw/toolchain.h.in')
@@ -51,6 +55,7 @@ def _fallback_flags():
 
 
 _compdb = None
+_gen_inc = None
 
 
 def compdb():
@@ -62,6 +67,9 @@ def compdb():
     db = {}
     bdir = os.path.join(REPO, '_build')
     entries = []
+    global _gen_inc
+    if os.path.isdir(os.path.join(REPO, '_build_include')):
+        _gen_inc = os.path.join(REPO, '_build_include')      # scratch copy made by corpus.py
     if os.path.exists(os.path.join(bdir, 'build.ninja')):
         try:
             out = subprocess.run(['ninja', '-C', bdir, '-t', 'compdb'],
